@@ -8,12 +8,19 @@ RULE = ("every byte string over {CR,LF,'.','x'} up to length %s (exhaustive; rea
         "CRLF.CRLF and a next command; every header of up to 4 lines from an 11-line Received/Delivered-To near-miss set; seeded random "
         "streams up to 64 KiB; run through the real qmail-smtpd.c blast() (ASan+UBSan build of the working tree) and the Lean model "
         "dblast/hopsOf; compared on verdict, stored bytes, bytes consumed and hop count; the oracle is the line-based reference decoder "
-        "rfcDecode evaluated on the implementation's behaviour; non-trivial = distinct input containing CR or LF")
+        "rfcDecode and the line-based hop count HopCount.hopSpec (theorem C05_hops) evaluated on the implementation's behaviour; "
+        "chunking (theorems C05_chunking*): streams of 1-8 KiB each delivered under read plans 1/2/1023/1024/1025/full/mixed/random short reads/"
+        "bytes already buffered/a failing read, and every framing string up to length %s placed at every offset across the 1024-byte buffer refill; "
+        "the composed Lean model sblast (substdio_get(1) over Nq.Substdio with the plan as read script) is compared with the implementation on "
+        "verdict, stored bytes, consumed count, final ssin.p/ssin.n and the number of read() calls; the chunk-independence oracle requires every "
+        "split of a stream to give the same verdict/stored bytes/consumed count; non-trivial = distinct input containing CR or LF")
 
 run_standard("C05", "Nq.Props.C05", "drv_c05", "harness/c05_blast.c", "qmail-smtpd",
              ["qmail.o", "timeoutread.o", "timeoutwrite.o"],
-             "9 4000", "12 60000", {"quick": RULE % 9, "thorough": RULE % 12},
-             "dblast/hopsOf (Nq/SmtpIn.lean) vs qmail-smtpd.c blast()", alphabet=b"\r\n.x",
-             stdin_prefixes=("0", "1", "2"),
-             assumptions=["substdio_get delivers the stream bytes in order regardless of read sizes (several chunkings are run)",
+             "9 4000", "12 60000", {"quick": RULE % (9, 5), "thorough": RULE % (12, 8)},
+             "dblast/hopsOf (Nq/SmtpIn.lean) and sblast over Nq.Substdio (Nq/SmtpIO.lean) vs qmail-smtpd.c blast() over substdi.c", alphabet=b"\r\n.x",
+             stdin_prefixes=("0", "1", "2", "1023", "1023,1"),
+             assumptions=["the value-level substdio model (Nq/Substdio.lean: the buffer is the list of unread bytes, not the array x) is tied to "
+                          "substdi.c by running the real substdio under the read plans and comparing ssin.p/ssin.n/read() counts (and by C20's harness); "
+                          "read() returns 0 only at the end of the stream",
                           "qmail_put is replaced by a capture of the bytes it is given (qmail.c's own discipline is C07)"])
